@@ -266,7 +266,7 @@ ASSUME = ['inquiries of the pool are hashable through their canonical content (C
 
 def main(argv):
     return run_check('C11', [CachedGuardStream()], argv, trusted_base=TRUSTED, assumptions=ASSUME,
-                     translated=('observable', 'guard', 'pin_inquiry'))
+                     translated=('observable', 'subject', 'guard', 'memory', 'pin_inquiry', 'pin_util'))
 
 
 if __name__ == '__main__':
